@@ -196,14 +196,25 @@ def build_bins(bins, all_bins=None):
     with Lock(os.path.join(root, 'lock', 'bins.lock')):
         if not os.path.exists(nf) or open(nf).read() != txt:
             open(nf, 'w').write(txt)
-        rc = _run(['ninja', '-C', root, '-j', '16'] + sorted(outs.values()), log)
+        rc = _run(['ninja', '-C', root, '-j', '16', '-k', '0'] + sorted(outs.values()), log)
+        failed = []
+        if rc != 0:
+            # which of the requested binaries could not be built?  (a change to the library may break the compilation of one
+            # harness while the others still build - they must still be run)
+            for name, out in sorted(outs.items()):
+                r = subprocess.run(['ninja', '-C', root, '-n', out], stdout=subprocess.PIPE, stderr=subprocess.STDOUT, text=True)
+                if r.returncode != 0 or 'no work to do' not in r.stdout:
+                    failed.append(name)
     if rc != 0:
         tail = ''
         try:
             tail = ''.join(open(log, errors='replace').readlines()[-60:])
         except OSError:
             pass
-        raise BuildError('harness build failed (see %s)\n%s' % (log, tail))
+        err = BuildError('harness build failed for %s (see %s)\n%s' % (', '.join(failed) or 'some target', log, tail))
+        err.failed = failed
+        err.built = {n: o for n, o in outs.items() if n not in failed}
+        raise err
     try:
         os.unlink(log)
     except OSError:
